@@ -339,3 +339,18 @@ func keys(m map[string]bool) []string {
 	sort.Strings(l)
 	return l
 }
+
+// Peers stepped arm by arm (profile worldsel): scheduler commands, chokes,
+// answers and rejects cross at the granularity of single select arms.
+func c11SelSpecs() []*bfsSpec {
+	al := []string{"choke:0", "unchoke:0", "ans:0:old:full", "rej:0:old", "tick", "cmd:0:2", "unwant:0:1", "pstep:0:2", "pstep:0:3", "pstep:0:6", "ev", "drain", "adv:2", "ungate:0", "gate:0"}
+	return []*bfsSpec{
+		{Name: "c11-sel-fast", Cfg: worldCfg{Geom: "g2x2", Peers: []peerCfg{{Fast: true, Ext: true, DontHave: 7}}, Gates: true},
+			Setup: []string{"haveall:0", "drain", "unchoke:0", "drain", "want:0:1", "want:1:0", "tick", "drain", "gate:0"}, Alphabet: al, Depth: 5, DepthT: 7},
+		{Name: "c11-sel-plain-reqq2", Cfg: worldCfg{Geom: "g2x2", Peers: []peerCfg{{Ext: true, ReqQ: 2}}, Gates: true},
+			Setup: []string{"bf:0:3", "drain", "unchoke:0", "drain", "want:0:1", "want:1:0", "tick", "drain", "gate:0"},
+			Alphabet: []string{"choke:0", "unchoke:0", "ans:0:old:full", "ans:0:new:full", "tick", "cmd:0:2", "cmd:0:3", "unwant:0:1", "pstep:0:2", "pstep:0:3", "pstep:0:6", "ev", "drain", "adv:2", "ungate:0"}, Depth: 5, DepthT: 7},
+	}
+}
+
+func TestVerifC11Sel(t *testing.T) { runSpecs(t, "C11", c11SelSpecs()) }
